@@ -64,6 +64,10 @@ ALPHAS = ["0", "1/8", "1/2", "1"]
 EPSS = ["0", "1/20", "1"]
 TEMPS = ["0", "1/2", "2"]
 GAMMAS = ["1/2", "3/4", "7/8"]
+# exact rationals grow by a few bits per step along update chains and Qred is quadratic in their length:
+# longer experiences are decided by the Python oracle only (counted separately, not as evaluations)
+MAX_STEPS = 300
+MAX_STEPS_GEN = 80
 TOL = F(1, 10**12)
 TOL_GEN = F(1, 10**9)
 
@@ -89,8 +93,11 @@ def gen_case(rng, tier):
             tbl = [[str(F(rng.randint(-40, 40), 8)) for _ in range(nA)] for _ in range(n)]
         iq = {"kind": "table", "table": tbl}
     temp = rng.choice(TEMPS) if rng.random() < .5 else "0"
+    episodes = rng.choice([1, 1, 2, 3, 5, 8, 12, 20])
+    if learner == "esarsa" and temp != "0":
+        episodes = rng.choice([1, 1, 2, 3])     # recorded 44-bit probabilities enter the fold: keep it short
     return {"mdp": m, "learner": learner, "alpha": rng.choice(ALPHAS), "eps": rng.choice(EPSS), "temp": temp,
-            "initial_q": iq, "episodes": rng.choice([1, 1, 2, 3, 5, 8, 12, 20]), "seed": rng.randrange(10**6)}
+            "initial_q": iq, "episodes": episodes, "seed": rng.randrange(10**6)}
 
 
 def q0_table(case):
@@ -281,7 +288,7 @@ def search_failing(case, res, impl_rows, impl_pol):
 # ---------------------------------------------------------------------------------------------
 def run(ctx):
     tier = ctx.tier
-    ncases = 200 if tier == "quick" else 3000
+    ncases = 300 if tier == "quick" else 4000
     if ctx.replay_case:
         cases = [ctx.replay_case["detail"]["case"]]
     else:
@@ -294,7 +301,7 @@ def run(ctx):
     stats = {"by_learner": {}, "alpha": {}, "eps": {}, "temp": {}, "initial_q": {}, "steps_total": 0, "max_steps": 0,
              "absorbing_start_episodes": 0, "sarsa_absorbing_start_first_seen": 0, "unvisited_state_cases": 0,
              "unvisited_nonconstant_init_cases": 0, "gamma_one": 0, "self_loop_steps": 0,
-             "ties_in_returned_rows": 0, "esarsa_softmax_cases": 0, "keys_mutated_by_policy_query": 0}
+             "ties_in_returned_rows": 0, "esarsa_softmax_cases": 0, "keys_mutated_by_policy_query": 0, "long_runs_oracle_only": 0}
     distinct = set()
     for i, (case, res) in enumerate(zip(cases, impl)):
         kind = case["learner"]
@@ -332,9 +339,17 @@ def run(ctx):
             ctx.violation(sig, {"case": case, "clause": bad[0], "where": bad[1], "impl": res}, found=True)
             continue
         parsed[i] = (impl_rows, impl_pol)
-        # ---- terms ----
         mk = model_kind(case)
         gen = mk == "esarsag"
+        nsteps = sum(len(e["steps"]) for e in res["episodes"])
+        if nsteps > (MAX_STEPS_GEN if gen else MAX_STEPS):
+            stats["long_runs_oracle_only"] += 1
+            clause, where = search_failing(case, res, impl_rows, impl_pol)
+            if clause:
+                sig = clause[4:] if clause.startswith("SIG:") else "C10:%s:%s" % (kind, clause)
+                ctx.violation(sig, {"case": case, "failing_clause": clause, "where": where, "impl": res}, found=True)
+            continue
+        # ---- terms ----
         mt = mdp_term(case)
         q0t = qmat(q0_table(case))
         evs = events_term(case, res, gen=gen)
@@ -348,7 +363,6 @@ def run(ctx):
             terms.append("rowsb %s %s %s %s" % (mt, q0t, q(case["alpha"]), evs))
             meta.append(("rows", i))
         # ---- input distribution ----
-        nsteps = sum(len(e["steps"]) for e in res["episodes"])
         stats["by_learner"][kind] = stats["by_learner"].get(kind, 0) + 1
         for k in ("alpha", "eps", "temp"):
             stats[k][case[k]] = stats[k].get(case[k], 0) + 1
